@@ -204,6 +204,131 @@ def kernel_calls(draw, n):
     return out
 
 
+# ---------------------------------------------------------------- memoryview / buffer kernels (.pyx; numpy is the oracle)
+MV_SRC = '''
+def mv_get1(int[:] m, Py_ssize_t i): return m[i]
+def mv_get1c(int[::1] m, Py_ssize_t i): return m[i]
+def mv_get2(int[:, :] m, Py_ssize_t i, Py_ssize_t j): return m[i, j]
+def mv_get2o(int[:, :] m, i, j): return m[i, j]
+def mv_set1(int[:] m, Py_ssize_t i):
+    m[i] = 77
+    return 77
+def mv_set2(int[:, :] m, Py_ssize_t i, Py_ssize_t j):
+    m[i, j] = 77
+    return 77
+def mv_row(int[:, :] m, Py_ssize_t i): return list(m[i])
+def mv_slice(int[:] m, Py_ssize_t a, Py_ssize_t b): return list(m[a:b])
+def mv_slice3(int[:] m, Py_ssize_t a, Py_ssize_t b, Py_ssize_t c): return list(m[a:b:c])
+def mv_slice_obj(int[:] m, a, b, c): return list((<object>m)[a:b:c])
+def buf_get1(object[int, ndim=1] b, Py_ssize_t i): return b[i]
+def buf_get2(object[int, ndim=2] b, Py_ssize_t i, Py_ssize_t j): return b[i, j]
+def buf_set1(object[int, ndim=1] b, Py_ssize_t i):
+    b[i] = 77
+    return 77
+def mv_char(const unsigned char[:] m, Py_ssize_t i): return m[i]
+'''
+MV_SETUP = '''
+import numpy as np
+
+def _arr(spec):
+    kind, n = spec
+    if kind == "c1":
+        return np.arange(10, 10 + n, dtype=np.intc)
+    if kind == "s1":
+        return np.arange(10, 10 + 2 * n, dtype=np.intc)[::2]
+    if kind == "r1":
+        return np.arange(10, 10 + n, dtype=np.intc)[::-1]
+    if kind == "c2":
+        return np.arange(20, 20 + n * 3, dtype=np.intc).reshape(n, 3)
+    if kind == "f2":
+        return np.asfortranarray(np.arange(20, 20 + n * 3, dtype=np.intc).reshape(n, 3))
+    if kind == "t2":
+        return np.arange(20, 20 + n * 3, dtype=np.intc).reshape(3, n).T
+    if kind == "u1":
+        return np.arange(n, dtype=np.uint8)
+
+def _ref(name, a, idx):
+    if name in ("mv_get1", "mv_get1c", "buf_get1", "mv_char"):
+        return int(a[idx[0]])
+    if name in ("mv_get2", "mv_get2o", "buf_get2"):
+        return int(a[idx[0], idx[1]])
+    if name in ("mv_set1", "buf_set1"):
+        a[idx[0]] = 77
+        return 77
+    if name == "mv_set2":
+        a[idx[0], idx[1]] = 77
+        return 77
+    if name == "mv_row":
+        return [int(x) for x in a[idx[0]]]
+    if name == "mv_slice":
+        return [int(x) for x in a[idx[0]:idx[1]]]
+    if name in ("mv_slice3", "mv_slice_obj"):
+        return [int(x) for x in a[idx[0]:idx[1]:idx[2]]]
+
+def MV(name, spec, idx):
+    a, b = _arr(spec), _arr(spec)
+    try:
+        r = ("ok", _ref(name, a, idx), a.tolist())
+    except Exception as e:
+        r = ("exc", type(e).__name__)
+    try:
+        g = ("ok", getattr(M, name)(b, *idx), b.tolist())
+    except Exception as e:
+        g = ("exc", type(e).__name__)
+    return ("same",) if r == g else ("diff", r, g)
+'''
+MV_KERNELS = {
+    "mv_get1": (["c1", "s1", "r1"], 1), "mv_get1c": (["c1"], 1), "mv_get2": (["c2", "f2", "t2"], 2), "mv_get2o": (["c2", "t2"], 2),
+    "mv_set1": (["c1", "s1", "r1"], 1), "mv_set2": (["c2", "f2", "t2"], 2), "mv_row": (["c2", "t2"], 1), "mv_slice": (["c1", "s1", "r1"], 2),
+    "mv_slice3": (["c1", "s1", "r1"], 3), "mv_slice_obj": (["c1", "r1"], 3), "buf_get1": (["c1", "s1", "r1"], 1),
+    "buf_get2": (["c2", "f2", "t2"], 2), "buf_set1": (["c1", "s1"], 1), "mv_char": (["u1"], 1),
+}
+MV_IDX = [0, 1, -1, 2, -2, 3, -3, 4, -4, 5, -5, 6, -7, 8, -9, 100, -100, 2**31 - 1, -2**31, 2**62, -2**62, 2**63 - 1, -2**63]
+
+
+@st.composite
+def mv_calls(draw, n):
+    out = []
+    names = sorted(MV_KERNELS)
+    for _ in range(n):
+        k = draw(st.sampled_from(names))
+        kinds, arity = MV_KERNELS[k]
+        spec = (draw(st.sampled_from(kinds)), draw(st.integers(0, 4)))
+        idx = [draw(st.sampled_from(MV_IDX)) for _ in range(arity)]
+        if k in ("mv_slice3", "mv_slice_obj") and idx[2] == 0:
+            idx[2] = 1 if k == "mv_slice3" else 0
+        if k == "mv_slice3" and abs(idx[2]) > 2**31:
+            idx[2] = 2
+        out.append("MV(%r, %r, %r)" % (k, spec, tuple(idx)))
+    return out
+
+
+def _mv_shard(arg):
+    seed, shard, ncalls = arg
+    tree.activate_view()
+    part = harness.Part()
+    outdir = os.path.join(tree.workdir(), "c36", "mv%d" % shard)
+    name = "c36mv_%d" % shard
+    calls = hyp.draw_many(mv_calls(ncalls), 2, seed, "c36mv", shard)[1]
+    try:
+        so = cybuild.build(MV_SRC, name, os.path.join(outdir, name), ext=".pyx", sanitize=True)
+    except (cybuild.CythonError, cybuild.CCError) as e:
+        part.violation("build:mv", {"kind": "mv", "exprs": calls[:2]}, "memoryview kernel module does not build: %s" % str(e)[-800:])
+        return part
+    _, got = runner.run_cases("so", so, name, [{"expr": c} for c in calls], env=cybuild.san_env(), setup=MV_SETUP, timeout=900)
+    for c, g in zip(calls, got):
+        shape = c.split("'")[1]
+        part.case(["mv", c], True, ["mvkernel:" + shape, "mvoutcome:" + g[0]], sample={"kind": "memoryview", "call": c, "outcome": diffmod.json_short(g, 200)})
+        if g[0] == "crash":
+            bucket, in_mod = san_class(g, name)
+            if in_mod:
+                part.violation(bucket + ":" + shape, {"kind": "mv", "exprs": [c]}, "%s under ASan/UBSan: %s" % (c, g[2][-1500:]))
+        elif g[0] == "ok" and g[1][1][0] != ["str", "'same'"]:
+            # numpy raises IndexError / returns x, compiled differs: out-of-range access not rejected (or wrong element)
+            part.violation("mvdiff:" + shape, {"kind": "mv", "exprs": [c]}, "%s: numpy vs compiled: %s" % (c, diffmod.json_short(g, 400)))
+    return part
+
+
 SAN_RE = re.compile(r"(ERROR: AddressSanitizer: [\w-]+|runtime error: [^\n]{0,120}|ERROR: UndefinedBehaviorSanitizer[^\n]{0,80}|"
                     r"AddressSanitizer: (?:SEGV|FPE|BUS|ILL)[^\n]{0,60})")
 
@@ -297,9 +422,10 @@ def run(ctx):
     npr = 2 if ctx.quick else 24
     ctx.pmap(_kernel_shard, [(ctx.seed, s, ncalls) for s in range(nk)])
     ctx.pmap(_prog_shard, [(ctx.seed, s, 12) for s in range(npr)])
+    ctx.pmap(_mv_shard, [(ctx.seed, s, 900 if ctx.quick else 5000) for s in range(1 if ctx.quick else 4)])
     ctx.rule = ("(a) a table of %d builtin-sequence/str/bytes/int/loop kernels (typed and untyped receivers, object and Py_ssize_t "
                 "indices) called with Hypothesis-chosen argument tuples from boundary pools (0, +-1, +-2**31, +-2**62, +-sys.maxsize, "
-                "2**63.., None, wrong types, subclasses, 39/40/41-digit numeric strings); (b) C01's generated pure-Python programs; both "
+                "2**63.., None, wrong types, subclasses, 39/40/41-digit numeric strings); (b) C01's generated pure-Python programs; (c) typed-memoryview / legacy-buffer element and slice kernels (.pyx) over contiguous, strided, reversed, Fortran and transposed numpy arrays with indices from the same boundary pool, numpy as oracle; all "
                 "compiled with gcc -O1 -fsanitize=address,undefined and run with the sanitizer runtimes preloaded. Violation = sanitizer "
                 "report/signal with a frame in the module, or CPython raises but compiled code returns a value. non-trivial = every executed "
                 "call (all run sanitizer-instrumented fast paths); distinct by (kernel, args) / (source, call)" % len(ARGSPEC))
@@ -310,6 +436,18 @@ def run(ctx):
 def replay(ctx, case):
     tree.activate_view()
     outdir = os.path.join(ctx.work, "c36replay")
+    if case["kind"] == "mv":
+        try:
+            so = cybuild.build(MV_SRC, "c36r", os.path.join(outdir, "mv"), ext=".pyx", sanitize=True)
+        except (cybuild.CythonError, cybuild.CCError) as e:
+            return True, "build: %s" % str(e)[-300:]
+        _, got = runner.run_cases("so", so, "c36r", [{"expr": e} for e in case["exprs"]], env=cybuild.san_env(), setup=MV_SETUP, timeout=900)
+        for e, g in zip(case["exprs"], got):
+            if g[0] == "crash":
+                return True, "%s: %s" % (e, san_class(g, "c36r")[0])
+            if g[0] == "ok" and g[1][1][0] != ["str", "'same'"]:
+                return True, "%s: %s" % (e, diffmod.json_short(g, 300))
+        return False, "no report"
     if case["kind"] == "kernels":
         items = [{"src": KERNEL_SRC, "cases": [{"expr": e} for e in case["exprs"]]}]
         header = KERNEL_HEADER
